@@ -213,4 +213,9 @@ impl SymmetricState {
             self.cipherstate.verif_has_key(),
         )
     }
+
+    /// The key a failed operation would re-install (checkpoint copy of the handshake cipher key).
+    pub(crate) fn verif_checkpoint_key(&self) -> [u8; CIPHERKEYLEN] {
+        self.inner.cipher_key
+    }
 }
